@@ -75,8 +75,9 @@ def _eval_requirement(body, ap, req):
                 continue
             if w.endswith('Iterator::all') and g.truth is not True:
                 continue
-        if req.get('quantifier') == 'forall' and getattr(g, 'quant', None):
-            # what the predicate of a quantifier tests counts for every element only under the same polarity
+        if getattr(g, 'quant', None) and (req.get('quantifier') == 'forall' or g.truth is not None):
+            # what the predicate of a quantifier tests is a fact about each element only under the right polarity: acceptance must follow from
+            # `all(p)` being true or `any(p)` being false (a refusal `if all(bad) {Err}` lets through every list with one good element)
             q = g.quant
             if q.endswith('Iterator::any') and g.truth is not False:
                 continue
